@@ -421,8 +421,9 @@ class Model:
             if tok[0] == "skip":
                 out.append(("skip", tok[1]))
             elif tok[0] == "dup":
-                if tok[1] in self.recs:
-                    out.append(("dup", tok[1], tok[2]))
+                # a shadowed duplicate line is never expected in the export: the statement demands
+                # "each user (per realm) exactly once"
+                continue
             elif tok[1] in self.recs:
                 out.append(("rec", tok[1], self.recs[tok[1]]))
         return out
@@ -431,13 +432,17 @@ class Model:
         # duplicates of a user that was deleted (and maybe set again) since the load may stay dropped
         return {"items": self.export_items(), "recs": dict(self.recs), "optional": set(self.orphaned)}
 
-    def snapshot_of(self, data):
+    def snapshot_of(self, data, keep_dups=False):
+        """expectation describing raw text; keep_dups: the text was written by the harness itself (initial /
+        external file), so its shadowed duplicate lines are simply there"""
         items, first, _c, _b = read_db(data, self.nf)
         exp, seen = [], set()
         for it in items:
             if it[0] == "rec":
                 if it[1] in seen:
-                    exp.append(("dup", it[1], it[2]))
+                    if keep_dups:
+                        exp.append(("dup", it[1], it[2]))
+                    continue  # shadowed duplicate: not expected to be written back (each user exactly once)
                 else:
                     seen.add(it[1])
                     exp.append(("rec", it[1], ("exact", it[2])))
@@ -586,7 +591,7 @@ def make_world(cfg):
         if cfg.get("realm"):
             kw["default_realm"] = _argform(w, mat.n[cfg["realm"]])
     w.vm.external_write(w.path2, mat.files["alt"], True)
-    m.disk2 = m.snapshot_of(mat.files["alt"])
+    m.disk2 = m.snapshot_of(mat.files["alt"], keep_dups=True)
     bind = cfg["bind"]  # "none" | "file" | "new"
     m.autosave = bool(cfg.get("autosave"))
     w.impl = None
@@ -613,7 +618,7 @@ def make_world(cfg):
             w.impl = klass(w.path, autosave=m.autosave, **kw)
             m.bound = True
             m.load_bytes(init)
-            m.disk = m.snapshot_of(init)
+            m.disk = m.snapshot_of(init, keep_dups=True)
             m.loaded_mt = w.vm.getmtime(w.path)
         elif bind == "new":
             w.impl = klass(w.path, new=True, autosave=m.autosave, **kw)
@@ -889,7 +894,7 @@ def apply_event(w, ev, acc=None):
             raise HarnessError("ext event on an unbound object")
         data = mat.files[fid]
         w.vm.external_write(w.path, data, int(bump))
-        m.disk = m.snapshot_of(data)
+        m.disk = m.snapshot_of(data, keep_dups=True)
         if acc is not None:
             acc.outcome((mat.cls, kind, "environment"))
         return out
